@@ -5,6 +5,10 @@
 //!   tzp.rule x<bytes> <0|1>      -> `err` | canonical rule dump
 //!   tzp.enc <ver> x<footer> <block> <block> -> x<bytes>   (the harness's writer vs Spec.encodeTzif)
 //!   tzp.render <rule fields…>    -> x<bytes>              (the harness's canonical renderer vs Spec.renderTz)
+//!   tzp.caps x<bytes>            -> the three `with_capacity` requests (element counts; accepted files)
+//!   tzp.layout x<bytes>          -> the block lengths the header counts announce and the footer length (accepted files)
+//!   tzp.at  <dump> t1,t2,…       -> o<off>:<dst> | err | panic   (three-valued lookup by instant on an accepted zone)
+//!   tzp.loc <dump> ℓ1:y1,…       -> s<off> | a<o1>/<o2> | n | err | panic   (… by wall clock)
 //! Direct oracles (`c.fail`): no panic in the readers or in lookups on accepted zones; a file written
 //! by the writer below is accepted and dumps exactly what was written; a rendered rule parses to the
 //! rule that was rendered; every system TZif file is accepted and decodes to what an independent
@@ -12,7 +16,53 @@
 //! indices out of bounds, DST flag, footer framing, …) are rejected.
 use crate::ctx::*;
 use chrono::__verif_tz as vt;
-use chrono::{DateTime, NaiveDateTime};
+use chrono::{DateTime, Datelike, MappedLocalTime, NaiveDateTime};
+
+/// Allocation probe: a counting wrapper around the system allocator, switched on only around a call
+/// of the TZif reader (one relaxed atomic load per allocation otherwise).  It makes the property's
+/// "no allocation beyond the input size" clause observable on the implementation.
+mod alloc_probe {
+    use std::alloc::{GlobalAlloc, Layout, System};
+    use std::sync::atomic::{AtomicBool, AtomicUsize, Ordering::Relaxed};
+    pub static ON: AtomicBool = AtomicBool::new(false);
+    pub static TOTAL: AtomicUsize = AtomicUsize::new(0);
+    pub static MAX_REQ: AtomicUsize = AtomicUsize::new(0);
+    pub struct Counting;
+    fn note(n: usize) {
+        if ON.load(Relaxed) {
+            TOTAL.fetch_add(n, Relaxed);
+            MAX_REQ.fetch_max(n, Relaxed);
+        }
+    }
+    unsafe impl GlobalAlloc for Counting {
+        unsafe fn alloc(&self, l: Layout) -> *mut u8 {
+            note(l.size());
+            System.alloc(l)
+        }
+        unsafe fn alloc_zeroed(&self, l: Layout) -> *mut u8 {
+            note(l.size());
+            System.alloc_zeroed(l)
+        }
+        unsafe fn dealloc(&self, p: *mut u8, l: Layout) {
+            System.dealloc(p, l)
+        }
+        unsafe fn realloc(&self, p: *mut u8, l: Layout, new_size: usize) -> *mut u8 {
+            note(new_size);
+            System.realloc(p, l, new_size)
+        }
+    }
+    #[global_allocator]
+    static A: Counting = Counting;
+    /// run `f` with counting on: `(result, total bytes requested, largest single request)`
+    pub fn measure<T>(f: impl FnOnce() -> T) -> (T, usize, usize) {
+        TOTAL.store(0, Relaxed);
+        MAX_REQ.store(0, Relaxed);
+        ON.store(true, Relaxed);
+        let r = f();
+        ON.store(false, Relaxed);
+        (r, TOTAL.load(Relaxed), MAX_REQ.load(Relaxed))
+    }
+}
 
 // ------------------------------------------------------------------------------------------ models
 #[derive(Clone, Debug)]
@@ -505,8 +555,38 @@ fn gen_block(c: &mut Ctx, ts: usize, forced_types: &[(i32, bool, Vec<u8>)], big:
 fn local_of(t: i64, off: i64) -> Option<NaiveDateTime> {
     DateTime::from_timestamp(t.checked_add(off)?, 0).map(|d| d.naive_utc())
 }
-/// the property's last sentence: an accepted zone answers every query without panicking
+/// offsets of the local time types in a canonical dump (`types=[off,dst,name;…]`)
+fn dump_offsets(d: &str) -> Vec<i64> {
+    let a = match d.find("types=[") {
+        Some(a) => a + 7,
+        None => return vec![],
+    };
+    let b = d[a..].find(']').map(|b| a + b).unwrap_or(a);
+    d[a..b].split(';').filter_map(|p| p.split(',').next().and_then(|t| t.parse().ok())).collect()
+}
+fn show_at(r: &Result<Result<(i32, bool), String>, ()>) -> String {
+    match r {
+        Ok(Ok((o, d))) => format!("o{}:{}", o, *d as u8),
+        Ok(Err(_)) => "err".to_string(),
+        Err(()) => "panic".to_string(),
+    }
+}
+fn show_loc(r: &Result<Result<MappedLocalTime<i32>, String>, ()>) -> String {
+    match r {
+        Ok(Ok(MappedLocalTime::Single(o))) => format!("s{}", o),
+        Ok(Ok(MappedLocalTime::Ambiguous(a, b))) => format!("a{}/{}", a, b),
+        Ok(Ok(MappedLocalTime::None)) => "n".to_string(),
+        Ok(Err(_)) => "err".to_string(),
+        Err(()) => "panic".to_string(),
+    }
+}
+/// the property's last sentence: an accepted zone answers every query without panicking.
+/// Direct oracle (a panic fails the property) AND correspondence: the three-valued lookup models
+/// (`tzp.at` / `tzp.loc`, proved never to panic on accepted zones and equal to C05's models) must give
+/// the same answer — value, `err` or `panic` — at the extremes of `i64` / `NaiveDateTime` and around
+/// every transition (all of them up to 24 (quick) / 200 (thorough) per zone, else the first and last 8 and a sample).
 fn probe(c: &mut Ctx, z: &vt::Zone, times: &[i64], label: &str, bytes: &[u8]) {
+    let dump = z.dump();
     let mut instants: Vec<i64> = vec![
         i64::MIN,
         i64::MIN + 1,
@@ -527,11 +607,15 @@ fn probe(c: &mut Ctx, z: &vt::Zone, times: &[i64], label: &str, bytes: &[u8]) {
         -8334601228800,
         8210266876799,
     ];
+    // the transitions to surround: all of them (thorough, or few), else first/last 8 and a sample
+    let cap = c.n(24, 200);
     let mut picks: Vec<i64> = vec![];
-    if !times.is_empty() {
-        picks.push(times[0]);
-        picks.push(times[times.len() - 1]);
-        for _ in 0..4 {
+    if times.len() <= cap {
+        picks.extend_from_slice(times);
+    } else {
+        picks.extend_from_slice(&times[..8]);
+        picks.extend_from_slice(&times[times.len() - 8..]);
+        for _ in 0..cap - 16 {
             picks.push(*c.rng.pick(times));
         }
     }
@@ -540,40 +624,135 @@ fn probe(c: &mut Ctx, z: &vt::Zone, times: &[i64], label: &str, bytes: &[u8]) {
             instants.push(t.saturating_add(d));
         }
     }
-    for t in instants {
-        match guard(|| z.offset_at(t)) {
-            Ok(Ok(_)) => c.count("lookup.instant:ok"),
-            Ok(Err(_)) => c.count("lookup.instant:err"),
-            Err(()) => {
-                c.count("lookup.instant:PANIC");
-                c.fail("offset lookup by instant panicked on an accepted zone", &format!("{} t={} file={}", label, t, hex(bytes)));
+    instants.sort_unstable();
+    instants.dedup();
+    for chunk in instants.chunks(1000) {
+        let res: Vec<_> = chunk.iter().map(|&t| guard(|| z.offset_at(t))).collect();
+        c.op(
+            &format!("tzp.at {} {}", dump, chunk.iter().map(|t| t.to_string()).collect::<Vec<_>>().join(",")),
+            &res.iter().map(show_at).collect::<Vec<_>>().join(","),
+        );
+        for (t, r) in chunk.iter().zip(&res) {
+            match r {
+                Ok(Ok(_)) => c.count("lookup.instant:ok"),
+                Ok(Err(_)) => c.count("lookup.instant:err"),
+                Err(()) => {
+                    c.count("lookup.instant:PANIC");
+                    c.fail("offset lookup by instant panicked on an accepted zone", &format!("{} t={} file={}", label, t, hex(bytes)));
+                }
             }
         }
     }
-    let mut locals: Vec<NaiveDateTime> = vec![NaiveDateTime::MIN, NaiveDateTime::MAX, DateTime::UNIX_EPOCH.naive_utc()];
+    let mut locals: Vec<NaiveDateTime> = vec![
+        NaiveDateTime::MIN,
+        NaiveDateTime::MAX,
+        DateTime::UNIX_EPOCH.naive_utc(),
+        NaiveDateTime::MIN + chrono::TimeDelta::seconds(1),
+        NaiveDateTime::MAX - chrono::TimeDelta::seconds(1),
+    ];
+    // wall-clock values at both ends of every window `transition + offset` (each type's offset), ±1 s
+    let mut offs = dump_offsets(&dump);
+    offs.sort_unstable();
+    offs.dedup();
+    if offs.len() > 4 {
+        let keep: Vec<i64> = (0..4).map(|_| *c.rng.pick(&offs)).collect();
+        offs = keep;
+    }
+    for o in [0i64, 93599] {
+        offs.push(o);
+    }
+    offs.sort_unstable();
+    offs.dedup();
     for t in &picks {
-        for off in [0i64, -1, 1, 3600, -3600, 7200, 86400, -86400, 93599] {
-            if let Some(l) = local_of(*t, off) {
-                locals.push(l);
+        for off in &offs {
+            for d in [-1i64, 0, 1] {
+                if let Some(l) = off.checked_add(d).and_then(|o| local_of(*t, o)) {
+                    locals.push(l);
+                }
             }
         }
     }
-    for l in locals {
-        match guard(|| z.offsets_for_local(l)) {
-            Ok(Ok(_)) => c.count("lookup.local:ok"),
-            Ok(Err(_)) => c.count("lookup.local:err"),
-            Err(()) => {
-                c.count("lookup.local:PANIC");
-                c.fail("offset lookup by wall clock panicked on an accepted zone", &format!("{} local={:?} file={}", label, l, hex(bytes)));
+    locals.sort_unstable();
+    locals.dedup();
+    for chunk in locals.chunks(1000) {
+        let res: Vec<_> = chunk.iter().map(|&l| guard(|| z.offsets_for_local(l))).collect();
+        c.op(
+            &format!(
+                "tzp.loc {} {}",
+                dump,
+                chunk.iter().map(|l| format!("{}:{}", l.and_utc().timestamp(), l.year())).collect::<Vec<_>>().join(",")
+            ),
+            &res.iter().map(show_loc).collect::<Vec<_>>().join(","),
+        );
+        for (l, r) in chunk.iter().zip(&res) {
+            match r {
+                Ok(Ok(_)) => c.count("lookup.local:ok"),
+                Ok(Err(_)) => c.count("lookup.local:err"),
+                Err(()) => {
+                    c.count("lookup.local:PANIC");
+                    c.fail("offset lookup by wall clock panicked on an accepted zone", &format!("{} local={:?} file={}", label, l, hex(bytes)));
+                }
             }
         }
     }
 }
 
+/// header-plus-data length the six counts of the header at the start of `b` announce (`ts`-byte times)
+fn announced(b: &[u8], ts: u128) -> u128 {
+    let cnt = |k: usize| -> u128 { b.iter().skip(20 + 4 * k).take(4).fold(0u128, |a, x| a * 256 + *x as u128) };
+    44 + cnt(3) * ts + cnt(3) + cnt(4) * 6 + cnt(5) + cnt(2) * (ts + 4) + cnt(1) + cnt(0)
+}
+/// counts that disagree with the data: an ACCEPTED file must have exactly the layout its header
+/// counts announce (v1: nothing else; v2+: second announced block, then a newline-framed footer);
+/// the specification's `announcedLen` / `footerOf` must say the same (`tzp.layout`)
+fn layout_oracle(c: &mut Ctx, bytes: &[u8], label: &str) {
+    let len = bytes.len() as u128;
+    let a4 = announced(bytes, 4);
+    if bytes[4] == 0 {
+        if len != a4 {
+            c.fail("accepted v1 file whose length differs from what its counts announce", &format!("{} announced={} file={}", label, a4, hex(bytes)));
+        }
+        c.op(&format!("tzp.layout {}", hex(bytes)), &format!("{} - 0", a4));
+        caps_op(c, bytes, bytes);
+        return;
+    }
+    if a4 > len {
+        c.fail("accepted file shorter than its first announced block", &format!("{} announced={} file={}", label, a4, hex(bytes)));
+        return;
+    }
+    let a8 = announced(&bytes[a4 as usize..], 8);
+    if a4 + a8 >= len || bytes[(a4 + a8) as usize] != b'\n' || bytes[bytes.len() - 1] != b'\n' {
+        c.fail("accepted v2+ file without the announced blocks followed by a newline-framed footer", &format!("{} announced={}+{} file={}", label, a4, a8, hex(bytes)));
+        return;
+    }
+    c.op(&format!("tzp.layout {}", hex(bytes)), &format!("{} {} {}", a4, a8, len - a4 - a8));
+    caps_op(c, bytes, &bytes[a4 as usize..]);
+}
+/// the `Vec::with_capacity` requests the model logs (element counts) are the counts of the header
+/// of the block that is decoded (`hdr` starts at that header)
+fn caps_op(c: &mut Ctx, bytes: &[u8], hdr: &[u8]) {
+    let cnt = |k: usize| be32(&hdr[20 + 4 * k..]);
+    c.op(&format!("tzp.caps {}", hex(bytes)), &format!("{} {} {}", cnt(3), cnt(4), cnt(2)));
+}
+
 /// run the reader on `bytes`: emits the correspondence op, guards against panics, probes accepted
 /// zones; returns the dump if accepted
 fn read_tzif(c: &mut Ctx, bytes: &[u8], label: &str, times: &[i64]) -> Option<String> {
-    let r = guard(|| vt::from_tzif(bytes));
+    let (r, total, max_req) = alloc_probe::measure(|| guard(|| vt::from_tzif(bytes)));
+    // "no allocation beyond the input size": the three vectors of 16-byte elements may together ask
+    // for up to 16/5 of the input (parse_allocs_bounded_bytes) and nothing else allocates on the Ok
+    // path; on the Err path the hook additionally formats the error value (a short text)
+    let slack: u128 = if matches!(r, Ok(Ok(_))) { 0 } else { 5 * 1024 };
+    if 5 * (total as u128) > 16 * (bytes.len() as u128) + slack {
+        c.fail("TZif reader allocated beyond 3.2 x the input size", &format!("{} total={} largest={} len={} file={}", label, total, max_req, bytes.len(), hex(&bytes[..bytes.len().min(200)])));
+    }
+    c.count(if total == 0 {
+        "alloc:none"
+    } else if 5 * total <= 16 * bytes.len() {
+        "alloc:within-3.2x-input"
+    } else {
+        "alloc:error-text-only-excess"
+    });
     match r {
         Err(()) => {
             c.count(&format!("{}:PANIC", label));
@@ -590,6 +769,7 @@ fn read_tzif(c: &mut Ctx, bytes: &[u8], label: &str, times: &[i64]) -> Option<St
             c.count(&format!("{}:ok", label));
             let d = z.dump();
             c.op(&format!("tzp.tzif {}", hex(bytes)), &d);
+            layout_oracle(c, bytes, label);
             let own: Vec<i64>;
             let ts = if times.is_empty() {
                 own = dump_times(&d);
@@ -1109,6 +1289,27 @@ fn tz_string_stage(c: &mut Ctx) {
             let got = read_rule(c, &text2, e2, "tz.canonical");
             if got.as_deref() != Some(&want[..]) {
                 c.fail("the canonical text of a rule does not read back as that rule", &format!("text={:?} ext={} got={:?} want={}", String::from_utf8_lossy(&text2), e2, got, want));
+            }
+        }
+        // the zone `TZ=<text>` selects (`TimeZone::from_posix_tz`: no transitions, the rule's own types):
+        // both lookups answer everywhere, and as the three-valued models do
+        if i % 4 == 2 && !uses_ext(&r) {
+            if let Ok(Ok(z)) = guard(|| vt::from_env_tz(Some(std::str::from_utf8(&text).unwrap()))) {
+                let types = match want.strip_prefix("alt(std=(") {
+                    Some(rest) => {
+                        let a = rest.find("),dst=(").unwrap();
+                        let b = rest.find("),start=").unwrap();
+                        format!("{};{}", &rest[..a], &rest[a + 7..b])
+                    }
+                    None => want["fixed(".len()..want.len() - 1].to_string(),
+                };
+                if z.dump() == format!("types=[{}] trans=[] leaps=[] rule={}", types, want) {
+                    c.count("tz.zone:from-rule-text");
+                } else {
+                    c.count("tz.zone:other (a zoneinfo file of that name)");
+                }
+                let years: Vec<i64> = vec![-62135596800, -2208988800, 0, 1_000_000_000, 1_700_000_000 + (i as i64) * 86400 * 37, 4_102_444_800, 253_402_300_799];
+                probe(c, &z, &years, "tz.zone", &text);
             }
         }
         if uses_ext(&r) {
